@@ -12,6 +12,11 @@
 (*              sb : scaled ("base") supply per token, Zero = no supply,      *)
 (*              sc : collateral flag per token (FALSE when no supply),        *)
 (*              bb : scaled variable debt per token, Zero = no debt,          *)
+(*              bz : tokens with an EMPTY debt entry: borrow() of nothing     *)
+(*                   (amount None with no headroom, or 0) is accepted by the  *)
+(*                   code, records a zero BorrowAction and leaves an entry of  *)
+(*                   scaled amount 0 in _borrows; it carries no debt (repay    *)
+(*                   rejects it, liquidation skips it) but it is listed,       *)
 (*              row: index into Rows, k: number of steps taken]               *)
 (***************************************************************************)
 EXTENDS Wallet, FiniteSets, TLC
@@ -40,6 +45,7 @@ Bi(st, t) == Row(st).bi[t]
 
 HasSup(st, t) == st.sb[t] # Zero
 HasBor(st, t) == st.bb[t] # Zero
+HasBorEntry(st, t) == HasBor(st, t) \/ t \in st.bz      \* what `borrows` / `borrow_keys` list
 SupAmt(st, t) == QMul(st.sb[t], Li(st, t))
 BorAmt(st, t) == QMul(st.bb[t], Bi(st, t))
 SupVal(st, t) == QMul(SupAmt(st, t), Px(st, t))
@@ -72,7 +78,7 @@ Q4(x) == QRound(x, 4, "HALF_EVEN")                                \* Decimal.qua
 View(st) ==
   [supplies        |-> [t \in {x \in Tokens : HasSup(st, x)} |-> [amount |-> SupAmt(st, t), base |-> st.sb[t],
                                                                    collateral |-> st.sc[t], value |-> SupVal(st, t)]],
-   borrows         |-> [t \in {x \in Tokens : HasBor(st, x)} |-> [amount |-> BorAmt(st, t), base |-> st.bb[t],
+   borrows         |-> [t \in {x \in Tokens : HasBorEntry(st, x)} |-> [amount |-> BorAmt(st, t), base |-> st.bb[t],
                                                                    value |-> BorVal(st, t)]],
    collateral_value|-> [t \in {x \in Tokens : HasSup(st, x) /\ st.sc[x]} |-> SupVal(st, t)],
    total_supply    |-> TotSup(st),
@@ -87,11 +93,11 @@ View(st) ==
    bal_borrows     |-> Q4(TotBor(st)),
    bal_collaterals |-> Q4(TotColl(st)),
    supply_weights  |-> [t \in {x \in Tokens : HasSup(st, x)} |-> IF TotSup(st) = Zero THEN Zero ELSE QDiv(SupVal(st, t), TotSup(st))],
-   borrow_weights  |-> [t \in {x \in Tokens : HasBor(st, x)} |-> IF TotBor(st) = Zero THEN Zero ELSE QDiv(BorVal(st, t), TotBor(st))]]
+   borrow_weights  |-> [t \in {x \in Tokens : HasBorEntry(st, x)} |-> IF TotBor(st) = Zero THEN Zero ELSE QDiv(BorVal(st, t), TotBor(st))]]
 
 -----------------------------------------------------------------------------
 InitSt(w0) == [w |-> w0, sb |-> [t \in Tokens |-> Zero], sc |-> [t \in Tokens |-> FALSE],
-               bb |-> [t \in Tokens |-> Zero], row |-> 1, k |-> 0]
+               bb |-> [t \in Tokens |-> Zero], bz |-> {}, row |-> 1, k |-> 0]
 
 Ok(st2, acts)  == [st |-> st2, out |-> "ok", acts |-> acts]
 Reject(st)     == [st |-> st, out |-> "reject", acts |-> <<>>]
@@ -140,7 +146,8 @@ Borrow(st, t, a0) ==
   IF ~Risk[t].canBorrow \/ TotColl(st) = Zero \/ MaxLtv(st) = Zero \/ ~HFGt1(HF(st)) THEN Reject(st)
   ELSE LET need == QDiv(QAdd(TotBor(st), QMul(a, Px(st, t))), BorrowLimitFactor(st)) IN
        IF QGt(need, TotColl(st)) THEN Reject(st)
-       ELSE LET s2 == [st EXCEPT !.bb[t] = QAdd(@, QDiv(a, Bi(st, t))), !.w[t] = WAdd(@, a)]
+       ELSE LET s2 == [st EXCEPT !.bb[t] = QAdd(@, QDiv(a, Bi(st, t))), !.w[t] = WAdd(@, a),
+                                 !.bz = IF a = Zero /\ ~HasBor(st, t) THEN @ \cup {t} ELSE @ \ {t}]
             IN Ok(s2, <<[type |-> "borrow", token |-> t, amount |-> a, after |-> BorAmt(s2, t)]>>)
 
 (* repay(token, amount | ALL, with = "cash" | collateral token) *)
@@ -235,7 +242,7 @@ IsUserOp(ev) == ev.op \in {"supply", "withdraw", "borrow", "repay", "setcoll"}
 Inv_NonNeg(st) == \A t \in Tokens : QGe(st.w[t], Zero) /\ QGe(st.sb[t], Zero) /\ QGe(st.bb[t], Zero)
 
 (* C04: a rejected operation leaves everything intact *)
-Act_C04(st, ev, r) == r.out = "reject" => (r.st.w = st.w /\ r.st.sb = st.sb /\ r.st.sc = st.sc /\ r.st.bb = st.bb /\ r.acts = <<>>)
+Act_C04(st, ev, r) == r.out = "reject" => (r.st.w = st.w /\ r.st.sb = st.sb /\ r.st.sc = st.sc /\ r.st.bb = st.bb /\ r.st.bz = st.bz /\ r.acts = <<>>)
 
 (* C03: user operations conserve total net value exactly up to wallet dust (frozen row) *)
 Total(st) == QAdd(WalletValue(st), NetValue(st))
